@@ -275,6 +275,15 @@ class C06(Check):
             steps.append({"op": "restart_dirty", "actor": "operator"})
             steps.append({"op": "insert1", "b": b, "ev": self._small(uid, lat, 999), "actor": "importer"})
             return {"backend": backend, "steps": steps, "lat": lat, "density": 1.0, "sample_seed": 0, "tz_off_min": 0, "spill": True}
+        if backend == "sqlite" and r.random() < 0.02:
+            # a bucket with thousands of events is deleted: still one bucket-level operation
+            b = buckets[0]
+            steps = actors.creates(rs["meta"], [b], cfg)
+            for k0 in range(0, 4400, 1100):
+                steps.append({"op": "insertN", "b": b, "evs": [{"ev": self._small(uid, lat, k0 + k)} for k in range(1100)], "actor": "importer"})
+            steps.append({"op": "delete_bucket", "b": b, "actor": "admin"})
+            steps.append({"op": "create", "b": b, "meta": actors.named(gen.meta(r, wild=False), cfg), "actor": "admin"})
+            return {"backend": backend, "steps": steps, "lat": lat, "density": 1.0, "sample_seed": 0, "tz_off_min": 0, "bigdelete": True}
         density = r.choice([1.0, 1.0, 0.5, 0.2]) if backend != "peewee" else r.choice([0.3, 0.1, 0.05])
         if len(steps) > 400:
             density = min(density, 0.05)
@@ -289,6 +298,8 @@ class C06(Check):
     def start(self, world, run):
         if run.get("spill"):
             world.probes["page_cache_spill_run"] += 1
+        if run.get("bigdelete"):
+            world.probes["delete_bucket_with_thousands_of_events"] += 1
         seams.CLOCK.set_local_offset(run.get("tz_off_min", 0))
         world.open()
 
